@@ -358,6 +358,9 @@ def _exc_class(name):
 def discharge_all(obligs, timeout_ms, workers=16, cover_timeout_ms=3000):
     """Group obligation instances by name; an obligation is discharged iff every
     instance is unsat.  Returns {name: result}."""
+    import os as _os
+
+    workers = int(_os.environ.get("VERIF_WORKERS", workers) or workers)  # contract development in parallel worktrees uses fewer
     jobs = []
     trivial = {}
     for ob in obligs:
